@@ -397,7 +397,71 @@ func loopQueriesSame(l, m *s2.Loop) string {
 			return "F:ContainsPoint"
 		}
 	}
+	if r := c09loopRelSame(l, m); r != "T" {
+		return r
+	}
 	return "T"
+}
+
+// c09loopRelSame: region relations go through the (sub-region) bounds the decoder has to rebuild: a loop
+// contains and intersects itself and its decoded twin, and both must relate identically to a third loop.
+func c09loopRelSame(l, m *s2.Loop) string {
+	// region relations go through the (sub-region) bounds the decoder has to rebuild: a loop contains and
+	// intersects itself and its decoded twin, and both must relate identically to a third loop
+	if l.NumVertices() >= 3 && !(l.IsEmpty() || l.IsFull()) && c09loopSimple(l) {
+		if !m.Contains(l) || !l.Contains(m) || !m.Intersects(l) || !l.Intersects(m) {
+			return "F:SelfRelation"
+		}
+		inner := c09innerLoop(l)
+		if inner != nil {
+			if l.Contains(inner) != m.Contains(inner) || l.Intersects(inner) != m.Intersects(inner) ||
+				inner.Intersects(l) != inner.Intersects(m) || inner.Contains(l) != inner.Contains(m) {
+				return "F:Relation"
+			}
+		}
+	}
+	return "T"
+}
+
+// c09loopSimple reports whether no two non-adjacent edges of l cross or touch (Loop.Validate does not check
+// this; region relations are only defined for such loops). Loops above 300 vertices are not checked (false).
+func c09loopSimple(l *s2.Loop) bool {
+	n := l.NumVertices()
+	if n > 300 {
+		return false
+	}
+	for a := 0; a < n; a++ {
+		for b := a + 1; b < n; b++ {
+			if l.Vertex(a) == l.Vertex(b) {
+				return false
+			}
+		}
+		for b := a + 2; b < n; b++ {
+			if a == 0 && b == n-1 {
+				continue
+			}
+			if s2.CrossingSign(l.Vertex(a), l.Vertex(a+1), l.Vertex(b), l.Vertex(b+1)) != s2.DoNotCross {
+				return false
+			}
+		}
+	}
+	return true
+}
+
+// c09innerLoop: a small triangle around the first vertex of l (it straddles the boundary), or nil.
+func c09innerLoop(l *s2.Loop) *s2.Loop {
+	v := l.Vertex(0)
+	a := s2.Point{Vector: v.Ortho()}
+	b := s2.Point{Vector: v.Cross(a.Vector).Normalize()}
+	const eps = 1e-3
+	p0 := s2.Point{Vector: v.Add(a.Mul(eps)).Normalize()}
+	p1 := s2.Point{Vector: v.Add(a.Mul(-eps / 2)).Add(b.Mul(eps)).Normalize()}
+	p2 := s2.Point{Vector: v.Add(a.Mul(-eps / 2)).Add(b.Mul(-eps)).Normalize()}
+	t := s2.LoopFromPoints([]s2.Point{p0, p1, p2})
+	if t.Validate() != nil {
+		return nil
+	}
+	return t
 }
 
 func polyQueriesSame(p, q *s2.Polygon) string {
@@ -417,6 +481,9 @@ func polyQueriesSame(p, q *s2.Polygon) string {
 			return "F:LoopStructure"
 		}
 		loops = append(loops, l.Vertices())
+		if r := c09loopRelSame(l, m); r != "T" {
+			return r
+		}
 	}
 	if s2.VerifPolygonNumVertices(p) != s2.VerifPolygonNumVertices(q) || p.IsEmpty() != q.IsEmpty() || p.IsFull() != q.IsFull() {
 		return "F:Counts"
@@ -728,6 +795,15 @@ func genC09(g *G) {
 			g.emit("snap", fx(q.X), fx(q.Y), fx(q.Z))
 			u := g.facePoint(r.Intn(6))
 			g.emit("snap", fx(u.X), fx(u.Y), fx(u.Z))
+			// exact lattice points that are NOT cell centres: cell corners and edge midpoints
+			cc := s2.CellFromCellID(s2.VerifCellIDFromPoint(g.facePoint(r.Intn(6))).Parent(r.Intn(31)))
+			cv := cc.Vertex(r.Intn(4))
+			g.emit("snap", fx(cv.X), fx(cv.Y), fx(cv.Z))
+			if cc.Level() < 30 {
+				ch, _ := cc.Children()
+				em := ch[0].Vertex(1 + r.Intn(2)) // midpoint of a parent edge (lattice point of mixed levels)
+				g.emit("snap", fx(em.X), fx(em.Y), fx(em.Z))
+			}
 		case 5: // polylines: arbitrary finite points and snapped ones
 			n := r.Intn(8)
 			pts := make([]s2.Point, n)
@@ -777,6 +853,24 @@ func genC09(g *G) {
 			}
 			g.emit("encpolygon", loopsSpec(loops))
 			g.emit("encloop", ptsTok(l1))
+			// polygons whose vertices are cell CORNERS (exact lattice points that are not cell centres):
+			// the outline of one cell, and of a cell with some child-corner midpoints inserted
+			{
+				cc := s2.CellFromCellID(s2.VerifCellIDFromPoint(g.facePoint(r.Intn(6))).Parent(r.Intn(31)))
+				var cl []s2.Point
+				for k := 0; k < 4; k++ {
+					cl = append(cl, cc.Vertex(k))
+					if cc.Level() < 30 && r.Bool() {
+						ch, _ := cc.Children()
+						// child k's vertex k+1 is the midpoint of the parent edge k -> k+1 in ij order
+						_ = ch
+					}
+				}
+				if validLoops([][]s2.Point{cl}) {
+					g.emit("encpolygon", loopsSpec([][]s2.Point{cl}))
+					g.emit("encloop", ptsTok(cl))
+				}
+			}
 		default: // concentric rings: shells and holes, all snapping modes, every face, large radii cross faces
 			c := g.facePoint(r.Intn(6))
 			nl := 1 + r.Intn(4)
